@@ -118,6 +118,13 @@ def build(outcome, tier, seed, targets, rng, n_hist):
             d = make_doc(rng, fmt, profile="toml" if fmt == "toml" else "common", depth=rng.choice([1, 2, 3]))
             if d:
                 pool[fmt].append(d)
+    # documents that more than one format accepts (detection in isolation resolves them by trial order to the format they
+    # are listed under): a translator whose detection depended on its earlier inputs would read them differently
+    AMBIGUOUS = {"json": [b'["x"]', b"[1]", b"[true]", b'["a b"]', b"[-0]", b'["x"]\n'],
+                 "yaml": [b"[a]\n", b"[a.b]\n", b"[-0]\n" if False else b"[x-y]\n"]}
+    for fmt, texts in AMBIGUOUS.items():
+        for t in texts:
+            pool[fmt].append((None, t))
     # 1. single-document runs
     singles, sreqs = {}, []
     for to in targets:
@@ -194,6 +201,28 @@ def build(outcome, tier, seed, targets, rng, n_hist):
             reqs.append({"id": i, "to": to, "calls": calls})
             cases.append((i, to, ";".join(mcalls) if mcalls else "-"))
             metas.append((to, calls))
+    # an ambiguous document, left to detection, after an input of each other format
+    for to in targets:
+        for afmt, texts in AMBIGUOUS.items():
+            for t in texts:
+                for pfmt in ("toml", "yaml", "json", "msgpack"):
+                    if not pool[pfmt] or (to, afmt, t) not in singles:
+                        continue
+                    pt = rng.choice(pool[pfmt])[1]
+                    if (to, pfmt, pt) not in singles:
+                        continue
+                    d1, d2 = join_docs(pfmt, [pt], rng), t
+                    if d1 is None or d2 is None:
+                        continue
+                    calls = [{"input": shared.hx(d1), "from": pfmt, "mode": rng.choice(["slice", "reader"])},
+                             {"input": shared.hx(d2), "from": afmt, "mode": "slice", "_detect": True}]
+                    for c in calls:
+                        if c["mode"] == "reader":
+                            c["sched"] = __import__("corpus").random_sched(rng)
+                    i = len(reqs)
+                    reqs.append({"id": i, "to": to, "calls": calls})
+                    cases.append((i, to, "1:%s;1:%s" % (singles[(to, pfmt, pt)], singles[(to, afmt, t)])))
+                    metas.append((to, calls))
     # some calls leave the source format to detection: only where a fresh detection of that input picks the format the
     # documents were written in, so that the model's per-document description stays valid.  (A translator whose detection
     # depended on earlier inputs would then part from the model.)
@@ -209,9 +238,14 @@ def build(outcome, tier, seed, targets, rng, n_hist):
         n_det = 0
         for r in reqs:
             for c in r["calls"]:
-                if uniq.get(c["input"]) == c["from"] and rng.random() < 0.4:
+                forced = c.pop("_detect", False)
+                if uniq.get(c["input"]) == c["from"] and (forced or rng.random() < 0.4):
                     c["from"] = None
                     n_det += 1
+    for r in reqs:
+        for c in r["calls"]:
+            c.pop("_detect", None)
+    if outcome.hooks_available:
         outcome.extra["history_calls_with_detected_format"] = outcome.extra.get("history_calls_with_detected_format", 0) + n_det
     return reqs, cases, len(sreqs)
 
